@@ -24,6 +24,7 @@ EXPLANATION = (
     "execution (crash points) without extra machinery. External preprocessor commands and races are "
     "out of scope."
     ' R6: page-tree locations are lexical joins below page_dir; ordered_subpage / copy_subdir entries cannot leave it (sanitiser idioms are recognised, element provenance of the page names is computed through helper functions).'
+    " Added after waves 6/7 - every path option is normalised before it is compared; `with_name` on the output root is a sibling (unsafe)."
 )
 ASSUMPTIONS = [
     "the set of mutating APIs is the reviewed list MUTATORS below (extended if a new module is imported: imports of os/shutil/pathlib/tempfile members are enumerated)",
@@ -463,6 +464,13 @@ def r6_pagetree_lexical(ctx, rep):
     rep.ob("PageNode.location is relative to the top page directory", ok, "", py.nloc(pn))
 
 
+def r7_all_paths_normalised(ctx, rep):
+    """the refusal to delete a source directory compares canonical paths: every path option goes through the normalisation
+    (shared with C15.R4)"""
+    from . import c15
+    c15.r4_path_rooting(ctx, rep)
+
+
 RULES = [
     RuleSpec("C19.R6", r6_pagetree_lexical, "page-tree locations are lexical joins below page_dir", floor=1),
     RuleSpec("C19.R1", r1_write_provenance, "every file-system write lands below output_dir/graph_dir", floor=12),
@@ -470,4 +478,5 @@ RULES = [
     RuleSpec("C19.R3", r3_resolved_paths, "refusal works on symlink-resolved, normalised paths", floor=1),
     RuleSpec("C19.R4", r4_no_symlink_preserving_copy, "recursively touched trees contain no symlinks", floor=1),
     RuleSpec("C19.R5", r5_exclude_output, "output directory excluded from source discovery", floor=1),
+    RuleSpec("C19.R7", r7_all_paths_normalised, "every path option is normalised before it is compared (shared with C15.R4)", floor=3),
 ]
